@@ -427,20 +427,234 @@ theorem limits_of_visOf (t : Tbl) (hs : SkipFaithful t) (ctor : Bool) (hnat : ct
       | none => simp [applyLimits_none_right]
       | some b => rfl
 
-/-- a table with the same records, header, footer and columns (widths forgotten) whose limits act
-like `t`'s prints what `t` prints -/
-theorem lines_of_same (t u : Tbl) (hw : WidthsFaithful t) (hr : u.records = t.records)
-    (hh : u.header = t.header) (hf : u.footer = t.footer) (hc : u.fmt.cols = t.fmt.cols.map Col.reset)
+/-! ## the format read after the next printing -/
+
+theorem render_of_lines {u : Tbl} {ls : List Line} (h : lines u = .ok ls) : ∃ u', render u = .ok (u', ls) := by
+  unfold lines at h
+  cases hr : render u with
+  | error e => simp [hr] at h
+  | ok p => obtain ⟨u', l⟩ := p; simp [hr] at h; subst h; exact ⟨u', rfl⟩
+
+/-- A table `u` with `t`'s records, header, footer and columns (widths apart), whose limits act like
+`t`'s and are either the same or irrelevant (nothing is skipped), prints `t`'s lines and afterwards
+reports the very same format string as `t` after printing. -/
+theorem fmt_after_print {t u t' : Tbl} {ls : List Line} (hw : WidthsFaithful t)
+    (hr : u.records = t.records) (hh : u.header = t.header) (hf : u.footer = t.footer)
+    (hc : u.fmt.cols = t.fmt.cols.map Col.reset)
     (hl : ∀ tls, mkTableLines (breakFields t.fmt.cols) Option.none t.records = .ok tls →
       applyLimits u.fmt.limF u.fmt.limL tls t.records.length
-        = applyLimits t.fmt.limF t.fmt.limL tls t.records.length) : lines u = lines t := by
-  rw [hw, lines_eq_linesWith, lines_eq_linesWith]
-  simp only [fresh, hr, hh, hf, hc]
-  apply linesWith_congr
-  intro tls htls
-  have hb : breakFields (t.fmt.cols.map Col.reset) = breakFields t.fmt.cols :=
-    breakFields_map_width t.fmt.cols (fun _ => Option.none)
-  rw [hb] at htls
-  exact hl tls htls
+        = applyLimits t.fmt.limF t.fmt.limL tls t.records.length)
+    (hlim : (u.fmt.limF = t.fmt.limF ∧ u.fmt.limL = t.fmt.limL) ∨
+      ∀ tls, mkTableLines (breakFields t.fmt.cols) Option.none t.records = .ok tls →
+        (applyLimits t.fmt.limF t.fmt.limL tls t.records.length).2 ≤ 0)
+    (ht : render t = .ok (t', ls)) :
+    ∃ u', render u = .ok (u', ls) ∧ fmtToStr u'.fmt = fmtToStr t'.fmt := by
+  have hlines : lines u = .ok ls := by
+    rw [lines_of_same t u hw hr hh hf hc hl]; exact lines_of_render ht
+  obtain ⟨u', hu⟩ := render_of_lines hlines
+  refine ⟨u', hu, ?_⟩
+  have hcols := printed_cols_eq ht hu hc
+  obtain ⟨tls, ws, nT, body, R⟩ := render_elim ht
+  obtain ⟨tls2, ws2, nT2, body2, R2⟩ := render_elim hu
+  have hb : breakFields u.fmt.cols = breakFields t.fmt.cols := by
+    rw [hc]; exact breakFields_map_width t.fmt.cols (fun _ => Option.none)
+  have htls : tls2 = tls := by
+    have := R2.tls_eq
+    rw [hb, hr, R.tls_eq] at this
+    cases this; rfl
+  subst htls
+  have hsk : u'.fmt.anySkipped = t'.fmt.anySkipped := by
+    rw [R.state_eq, R2.state_eq]
+    simp only [printed]
+    rw [hr, hl tls2 R.tls_eq]
+  have hF : u'.fmt.limF = u.fmt.limF ∧ u'.fmt.limL = u.fmt.limL := by rw [R2.state_eq]; exact ⟨rfl, rfl⟩
+  have hF' : t'.fmt.limF = t.fmt.limF ∧ t'.fmt.limL = t.fmt.limL := by rw [R.state_eq]; exact ⟨rfl, rfl⟩
+  have hlimstr : limitsToStr u'.fmt = limitsToStr t'.fmt := by
+    unfold limitsToStr
+    rw [hsk]
+    by_cases hs : t'.fmt.anySkipped = some false
+    · simp [hs]
+    · simp only [hs, if_false]
+      rcases hlim with ⟨e1, e2⟩ | hle
+      · rw [hF.1, hF.2, hF'.1, hF'.2, e1, e2]
+      · exfalso
+        apply hs
+        rw [R.state_eq]
+        simp only [printed]
+        have := hle tls2 R.tls_eq
+        exact congrArg some (decide_eq_false (by omega))
+  unfold fmtToStr colsToStr
+  rw [hcols, hlimstr]
+
+/-! ## field-less tables are tables with the fields `col_1`, `col_2`, … (or the dummy field) -/
+
+theorem natToDec_inj (a b : Nat) (h : natToDec a = natToDec b) : a = b := by
+  have := congrArg (fun l => Nat.ofDigitChars 10 l 0) h
+  simpa [natToDec] using this
+
+/-- the field specifications that give the fields of a field-less table back -/
+def specsOf (fields : List Field) : List FieldSpec := fields.map fun f => ⟨f.name, f.ftype, TitleArg.none⟩
+
+/-- a name without line break and edge blanks is its own (single) title line -/
+theorem genTitleLines_none (name : List Char) (h1 : '\n' ∉ name) (h2 : EdgeOk name) :
+    genTitleLines TitleArg.none name = [Val.str name] := by
+  simp [genTitleLines, splitOn_no_sep _ _ h1, strip_id _ h2]
+
+theorem colName_ok (k : Nat) : '\n' ∉ Gen.C12.colPrefix ++ natToDec k ∧ NameOk (Gen.C12.colPrefix ++ natToDec k) := by
+  have hp : ∀ c ∈ Gen.C12.colPrefix, c ≠ '\n' ∧ c ∉ forbidden ∧ isSpace c = false := by decide
+  have hd : ∀ c ∈ natToDec k, c ≠ '\n' ∧ c ∉ forbidden ∧ isSpace c = false := by
+    intro c hc
+    have hdig := natToDec_digits k c hc
+    have f := digit_facts c hdig
+    refine ⟨?_, ?_, f.1⟩
+    · intro e; subst e; cases hdig
+    · intro hf
+      simp only [forbidden, List.mem_cons, List.not_mem_nil, or_false] at hf
+      rcases hf with e | e | e | e | e | e | e | e
+      · exact f.2.1 e
+      · exact f.2.2.1 e
+      · exact f.2.2.2.1 e
+      · exact f.2.2.2.2.1 e
+      · exact f.2.2.2.2.2.1 e
+      · exact f.2.2.2.2.2.2.1 e
+      · exact f.2.2.2.2.2.2.2.1 e
+      · exact f.2.2.2.2.2.2.2.2.1 e
+  have hall : ∀ c ∈ Gen.C12.colPrefix ++ natToDec k, c ≠ '\n' ∧ c ∉ forbidden ∧ isSpace c = false := by
+    intro c hc
+    rcases List.mem_append.mp hc with h | h
+    · exact hp c h
+    · exact hd c h
+  exact ⟨fun h => (hall _ h).1 rfl, nameOk_of_all _ fun c hc => (hall c hc).2⟩
+
+theorem dummy_ok : '\n' ∉ Gen.C12.dummyField ∧ NameOk Gen.C12.dummyField := by
+  have h0 : '\n' ∉ Gen.C12.dummyField := by decide +kernel
+  have h1 : ∀ c ∈ Gen.C12.dummyField, c ∉ forbidden := by decide +kernel
+  have h2 : Gen.C12.dummyField.head? = some '-' := by decide +kernel
+  have h3 : Gen.C12.dummyField.getLast? = some '-' := by decide +kernel
+  have hs : isSpace '-' = false := by unfold isSpace; decide
+  refine ⟨h0, h1, ?_, ?_⟩
+  · intro c hc; rw [h2] at hc; cases hc; exact hs
+  · intro c hc; rw [h3] at hc; cases hc; exact hs
+
+theorem colNFields_names (pos n : Nat) :
+    ∀ f ∈ colNFields pos n, ∃ k, pos ≤ k ∧ f.name = Gen.C12.colPrefix ++ natToDec (k + 1) := by
+  induction n generalizing pos with
+  | zero => intro f hf; simp [colNFields] at hf
+  | succ m ih =>
+    intro f hf
+    simp only [colNFields, List.mem_cons] at hf
+    rcases hf with rfl | hf
+    · exact ⟨pos, Nat.le_refl _, rfl⟩
+    · obtain ⟨k, hk, hn⟩ := ih (pos + 1) f hf
+      exact ⟨k, by omega, hn⟩
+
+theorem colNFields_nodup (pos n : Nat) : hasDup ((colNFields pos n).map (·.name)) = false := by
+  induction n generalizing pos with
+  | zero => rfl
+  | succ m ih =>
+    simp only [colNFields, List.map_cons, hasDup, Bool.or_eq_false_iff]
+    refine ⟨?_, ih (pos + 1)⟩
+    cases hc : ((colNFields (pos + 1) m).map (·.name)).contains (Gen.C12.colPrefix ++ natToDec (pos + 1)) with
+    | false => rfl
+    | true =>
+      simp only [List.contains_eq_mem, List.mem_map, decide_eq_true_eq] at hc
+      obtain ⟨f, hf, hname⟩ := hc
+      obtain ⟨k, hk, hn⟩ := colNFields_names (pos + 1) m f hf
+      rw [hn] at hname
+      have := natToDec_inj _ _ (List.append_cancel_left hname)
+      omega
+
+theorem mkFields_specsOf_colN (pos n : Nat) : mkFields pos (specsOf (colNFields pos n)) = colNFields pos n := by
+  induction n generalizing pos with
+  | zero => rfl
+  | succ m ih =>
+    simp only [colNFields, specsOf, List.map_cons, mkFields] at ih ⊢
+    rw [genTitleLines_none _ (colName_ok _).1 (colName_ok _).2.2]
+    congr 1
+    exact ih (pos + 1)
+
+/-- A table built without `fields` (and without explicit columns) is the table built with
+`fields=["col_1", …]` (or the dummy field's name): the same state, and the names are expressible. -/
+theorem mkTable_fieldless (a : CtorArgs) (ha : a.fields = Option.none) (t : Tbl) (h : mkTable a = .ok t) :
+    mkTable { a with fields := some (specsOf t.fmt.fields) } = .ok t ∧
+      ∀ sp ∈ specsOf t.fmt.fields, NameOk sp.name := by
+  unfold mkTable at h
+  simp only [bind_ok, ha] at h
+  obtain ⟨p, hp, fc, hfc, h⟩ := h
+  cases h
+  cases hpc : p.cols with
+  | explicit cs => simp [hpc] at hfc
+  | keep =>
+    simp only [hpc, Except.ok.injEq] at hfc
+    subst hfc
+    simp only
+    cases hrec : a.records with
+    | nil =>
+      simp only
+      have hspec : mkFields 0 (specsOf [⟨Gen.C12.dummyField, FType.dflt, 0, [Val.str Gen.C12.dummyField]⟩])
+          = [⟨Gen.C12.dummyField, FType.dflt, 0, [Val.str Gen.C12.dummyField]⟩] := by
+        simp only [specsOf, List.map_cons, List.map_nil, mkFields]
+        rw [genTitleLines_none _ dummy_ok.1 dummy_ok.2.2]
+      refine ⟨?_, ?_⟩
+      · unfold mkTable
+        simp only [hp, hpc, bind, Except.bind, specsOf, List.map_cons, List.map_nil, hasDup,
+          List.contains_nil, Bool.or_self, Bool.false_eq_true, if_false]
+        simp only [specsOf, List.map_cons, List.map_nil] at hspec
+        rw [hspec]
+        rfl
+      · intro sp hsp
+        simp only [specsOf, List.map_cons, List.map_nil, List.mem_singleton] at hsp
+        subst hsp; exact dummy_ok.2
+    | cons r rs =>
+      simp only
+      refine ⟨?_, ?_⟩
+      · unfold mkTable
+        have hnd : hasDup ((specsOf (colNFields 0 r.length)).map (·.name)) = false := by
+          have := colNFields_nodup 0 r.length
+          simpa [specsOf, List.map_map, Function.comp_def] using this
+        simp only [hp, hpc, bind, Except.bind, hnd, Bool.false_eq_true, if_false,
+          mkFields_specsOf_colN]
+      · intro sp hsp
+        simp only [specsOf, List.mem_map] at hsp
+        obtain ⟨f, hf, rfl⟩ := hsp
+        obtain ⟨k, _, hn⟩ := colNFields_names 0 r.length f hf
+        simp only [hn]
+        exact (colName_ok _).2
+  | all =>
+    simp only [hpc, Except.ok.injEq] at hfc
+    subst hfc
+    simp only
+    cases hrec : a.records with
+    | nil =>
+      simp only
+      have hspec : mkFields 0 (specsOf [⟨Gen.C12.dummyField, FType.dflt, 0, [Val.str Gen.C12.dummyField]⟩])
+          = [⟨Gen.C12.dummyField, FType.dflt, 0, [Val.str Gen.C12.dummyField]⟩] := by
+        simp only [specsOf, List.map_cons, List.map_nil, mkFields]
+        rw [genTitleLines_none _ dummy_ok.1 dummy_ok.2.2]
+      refine ⟨?_, ?_⟩
+      · unfold mkTable
+        simp only [hp, hpc, bind, Except.bind, specsOf, List.map_cons, List.map_nil, hasDup,
+          List.contains_nil, Bool.or_self, Bool.false_eq_true, if_false]
+        simp only [specsOf, List.map_cons, List.map_nil] at hspec
+        rw [hspec]
+        rfl
+      · intro sp hsp
+        simp only [specsOf, List.map_cons, List.map_nil, List.mem_singleton] at hsp
+        subst hsp; exact dummy_ok.2
+    | cons r rs =>
+      simp only
+      refine ⟨?_, ?_⟩
+      · unfold mkTable
+        have hnd : hasDup ((specsOf (colNFields 0 r.length)).map (·.name)) = false := by
+          have := colNFields_nodup 0 r.length
+          simpa [specsOf, List.map_map, Function.comp_def] using this
+        simp only [hp, hpc, bind, Except.bind, hnd, Bool.false_eq_true, if_false,
+          mkFields_specsOf_colN]
+      · intro sp hsp
+        simp only [specsOf, List.mem_map] at hsp
+        obtain ⟨f, hf, rfl⟩ := hsp
+        obtain ⟨k, _, hn⟩ := colNFields_names 0 r.length f hf
+        simp only [hn]
+        exact (colName_ok _).2
 
 end Table
